@@ -368,6 +368,27 @@ def task_types():
 task_types.contract_fn = "knotspace.KnotVector.__new__"
 
 
+def task_sep():
+    """Outside A3: distinct knots closer than 1e-6 (the library's merging tolerance).  Reported as the known finding D3."""
+    fn = "heavy.ImmutableKnotVector.knots"
+    out = []
+    for label, v in (("1e-7-apart", [F(0), F(0), F(1, 10 ** 7), F(1), F(1)]), ("5e-7-apart-interior", [F(0), F(0), F(1, 2), F(1, 2) + F(5, 10 ** 7), F(1), F(1)])):
+        try:
+            k = KV(list(v))
+            kn = tuple(k.knots)
+            want = spec.knots_of(v)
+            ok = kn == want and k.mult(v[2]) == spec.mult_of(v, v[2])
+            detail = "knots %s (element list has %s)" % ([str(x) for x in kn], [str(x) for x in want])
+        except Exception as e:
+            ok, detail = False, "%s: %s" % (type(e).__name__, str(e)[:80])
+        out.append(ob("%s:agree-with-elements[%s]" % (fn, label), fn, PROVED if ok else FAILED, "B", "concrete", 0.0, detail,
+                      None if ok else dict(kind="c03.sep", vector=[str(x) for x in v]), {"sep_violated": True}))
+    return out
+
+
+task_sep.contract_fn = "heavy.ImmutableKnotVector.knots"
+
+
 def tier_shapes(tier):
     if tier == "quick":
         return spec.knot_shapes(2, 1) + [(3, (2,)), (1, (1, 2)), (2, (3, 1)), (0, (1, 1))]
@@ -393,6 +414,7 @@ def tasks(tier, seed):
     for st in starts:
         ts.append((task_histories, (st, 2 if tier == "quick" else 3)))
     ts.append((task_types, ()))
+    ts.append((task_sep, ()))
     return ts
 
 
@@ -415,6 +437,10 @@ def replay(o):
             got = type(e).__name__
             bad = True
         return bad, dict(vector=v, degree=d, well_formed=want), got
+    if kind == "c03.sep":
+        v = [F(x) for x in w["vector"]]
+        k = KV(list(v))
+        return tuple(k.knots) != spec.knots_of(v), dict(vector=v, distinct_values=spec.knots_of(v)), dict(knots=tuple(k.knots))
     if kind == "c03.types":
         arg = dict(TYPE_TABLE)[w["label"]]
         try:
